@@ -105,7 +105,11 @@ def check_pkg(case):
     import hdl21 as h
     from rtc.wf import wf_package
     desc, build = case
-    top = build()
+    from props.c02 import NotAFault
+    try:
+        top = build()
+    except NotAFault:
+        return None      # (a C02 builder whose late edit was refused without trace: nothing to look at)
     try:
         pkg = h.to_proto(top)
     except Exception:
@@ -122,10 +126,11 @@ def run(ctx):
     c01_deductive.run(ctx)
     from contracts import c_export
     ctx.verify(c_export.names_engine(), c_export.VERIFY_NAMES)
-    cases = itertools.chain(design_family(ctx.tier, ctx.seed), extra_programs(), edited_programs(), edited_after_export_programs(), faulted_programs(),
+    from props.c01 import concat_designs
+    cases = itertools.chain(design_family(ctx.tier, ctx.seed), concat_designs(), extra_programs(), edited_programs(), edited_after_export_programs(), faulted_programs(),
                             adversarial_programs())
     ctx.run_bounded("wf_package(to_proto(design))", cases, check_pkg,
-                    rule=RULE + "; plus Series/MosStack/Wrapper over small parameter ranges; modules whose names were "
+                    rule=RULE + "; every concatenation of two or three pieces of one bus (C01's family, 285 designs); plus Series/MosStack/Wrapper over small parameter ranges; modules whose names were "
                          "re-used for another kind (16 pairs); modules edited after a first export (7 edits x 2 depths); the single-fault designs of C02 (a package returned for "
                          "one of them must still be well-formed); the adversarially named designs of C05",
                     bound="depth<=3, widths<=4 (8 thorough)", key_of=lambda c: c[0],
